@@ -23,6 +23,8 @@ CLAUSE = CLAUSE + (" flush_prog_info clears the second-occurrence bookkeeping of
 CLAUSE = CLAUSE + (" Outside the assembler, abandoning the sub-packet in progress (curr_sp := NULL on a decoder desync) comes after "
                    "its count was cleared; after every flush_prog_info() in xds_decoder the datum of the packet that caused the flush "
                    "is stored into the programme record again on every path.")
+CLAUSE = CLAUSE + (" vbi_reset_prog_info never writes pi->future (flush_prog_info indexes info_cycle with it afterwards); "
+                   "vbi_chsw_reset wipes the network record only under identified == 0.")
 NOT_DECIDED = ("exactly-once delivery under interleaving, equality of the delivered bytes with the sent ones, content decoding "
                "into vbi_program_info (values).")
 
@@ -189,6 +191,8 @@ def run(ctx, run):
     _field2_ids(ctx, run)
     _desync_discards_current(ctx, run)
     _flush_then_restore(ctx, run)
+    _reset_keeps_slot(ctx, run)
+    _network_wiped_only_unidentified(ctx, run)
 
 
 def _canon(f, node):
@@ -693,3 +697,74 @@ def _flush_then_restore(ctx, run):
                           "that caused the flush: the record announced next lacks the field just received (empty title)"
                           % ex.pretty(f, i)[:50], ex.loc(f, i))
     run.floor("flush_prog_info calls in xds_decoder", n, 2)
+
+
+def _reset_keeps_slot(ctx, run):
+    """RF-NOWRITE: flush_prog_info() resets a programme record with vbi_reset_prog_info() and then
+    clears the announcement cycle of the slot it belongs to, info_cycle[pi->future].  The reset
+    must therefore leave pi->future alone (no store to it, no clearing of the whole record): a
+    future-class flush would otherwise wipe the *current* programme's cycle and label its events
+    with class 0."""
+    P = ctx.prog
+    f = P.need("vbi_reset_prog_info", "src/vbi.c")
+    run.touch(f)
+    pn = f.params[0]["name"]
+    bad = []
+    for bid, i in flow.all_events(f):
+        e = f.exprs[i]
+        for lhs, var, op, rhs in flow.stores(f, i):
+            if lhs is None:
+                continue
+            l = f.exprs[ex.skip(f, lhs)]
+            if l["k"] == "mem" and l["member"] == "future":
+                bad.append((i, "stores to %s->future" % pn))
+            if l["k"] == "un" and l["op"] == "*" and f.exprs[ex.skip(f, l["c"][0])].get("name") == pn:
+                bad.append((i, "assigns the whole record"))
+        if e["k"] == "call" and e.get("callee") in ("memset", "__builtin_memset", "memcpy", "__builtin_memcpy") and e.get("c"):
+            a = f.exprs[ex.skip(f, e["c"][0])]
+            while a["k"] == "cast":
+                a = f.exprs[ex.skip(f, a["c"][0])]
+            if a["k"] == "ref" and a.get("name") == pn:
+                bad.append((i, "clears the whole record"))
+            if a["k"] == "un" and a["op"] == "&":
+                x = f.exprs[ex.skip(f, a["c"][0])]
+                if x["k"] == "un" and x["op"] == "*" and f.exprs[ex.skip(f, x["c"][0])].get("name") == pn:
+                    bad.append((i, "clears the whole record"))
+    key = "RF-NOWRITE:vbi_reset_prog_info:future"
+    if bad:
+        i, why = bad[0]
+        run.violation("RF-NOWRITE", key, "vbi_reset_prog_info() %s (`%s`): flush_prog_info() indexes info_cycle[] with pi->future "
+                      "right after the reset, so a flush of the future programme clears the current programme's announcement "
+                      "cycle and its events carry future == 0" % (why, ex.pretty(f, i)[:50]), ex.loc(f, i))
+    else:
+        run.holds("RF-NOWRITE", key, "the reset writes the record field by field and never touches `future`", "%s:%d" % (f.file, f.line))
+
+
+def _network_wiped_only_unidentified(ctx, run):
+    """RF-DOM: vbi_chsw_reset (vbi, identified) wipes the network record (name, call letters, ids)
+    only when the switch was *not* identified by the caller (identified == 0).  The XDS decoder
+    calls it with the id of the station whose name / call letters it has just stored in that
+    record: an unconditional wipe announces the new station with an empty name and makes every
+    further identical name packet look like another change."""
+    P = ctx.prog
+    f = P.need("vbi_chsw_reset", "src/vbi.c")
+    run.touch(f)
+    pn = f.params[1]["name"]
+    n = 0
+    for bid, i in flow.all_events(f):
+        e = f.exprs[i]
+        if e["k"] != "call" or e.get("callee") not in ("memset", "__builtin_memset") or not e.get("c"):
+            continue
+        if not ex.pretty(f, e["c"][0]).replace(" ", "").endswith("->network"):
+            continue
+        n += 1
+        ok = any(a.rel == "==" and a.R is not None and a.R.const == 0 and pn in a.L.locals and not a.L.fields for a in atoms.atoms_at(f, i))
+        key = "RF-DOM:vbi_chsw_reset:wipe-under-unidentified"
+        if ok:
+            run.holds("RF-DOM", key, "`%s` only under %s == 0" % (ex.pretty(f, i)[:50], pn), ex.loc(f, i))
+        else:
+            run.violation("RF-DOM", key, "vbi_chsw_reset() wipes the network record (`%s`) also when the caller identified the new "
+                          "station (%s != 0): the XDS decoder has just stored the received name / call letters there, so the "
+                          "NETWORK event carries empty strings and the unchanged name is 'new' again on its next repeat"
+                          % (ex.pretty(f, i)[:50], pn), ex.loc(f, i))
+    run.floor("wipes of the network record in vbi_chsw_reset", n, 1)
